@@ -133,7 +133,7 @@ class LRTDP(Plans):
             return DictDistribution.uniform(max_actions)
 
         res.policy = policy
-        res.initial_value = sum([res.V[s0]*p for s0, p in mdp.initial_state_dist().items()])
+        res.initial_value = sum([res.V[s0]*p for s0, p in mdp.initial_state_dist().items() if p > 0])
 
         #clear result
         self.res = None
@@ -148,7 +148,7 @@ class LRTDP(Plans):
         self.res.solved = defaultdict2(lambda s: False)
 
         for i in range(iterations):
-            if all(self.res.solved[s] for s in mdp.initial_state_dist().support):
+            if all(self.res.solved[s] for s, p in mdp.initial_state_dist().items() if p > 0):
                 return
             self.lrtdp_trial(mdp, mdp.initial_state_dist().sample(rng=self.rng))
         if i == (iterations - 1):
@@ -192,7 +192,9 @@ class LRTDP(Plans):
             if abs(residual) > self.bellman_error_margin:
                 flag = False
             else:
-                for ns in mdp.next_state_dist(s, self.policy(mdp, s)).support:
+                for ns, ns_prob in mdp.next_state_dist(s, self.policy(mdp, s)).items():
+                    if ns_prob == 0:
+                        continue
                     if not self.res.solved[ns] and ns not in open and ns not in closed:
                         open.append(ns)
         if flag:
@@ -217,6 +219,8 @@ class LRTDP(Plans):
             return 0
         q = 0
         for ns, prob in mdp.next_state_dist(s, a).items():
+            if prob == 0:
+                continue
             future = 0
             if not mdp.is_absorbing(ns):
                 future = self.res.V[ns]
